@@ -716,7 +716,7 @@ func c24Bulk(store events.IEventsDB, want map[uint32][]events.Event, h uint32, f
 			amount := c24Amounts[i%len(c24Amounts)]
 			coin := c24Coins[i%len(c24Coins)]
 			var e events.Event
-			kind := i % 7
+			kind := i % 8
 			if k >= toKey && (kind == 2) {
 				kind = 4
 			}
@@ -740,6 +740,9 @@ func c24Bulk(store events.IEventsDB, want map[uint32][]events.Event, h uint32, f
 				e = &events.StakeKickEvent{Address: addr, Amount: amount, Coin: coin, ValidatorPubKey: key}
 			case 6:
 				e, usesKey = &events.OrderExpiredEvent{ID: uint64(i), Address: addr, Amount: amount, Coin: coin}, false
+			case 7:
+				// to an earlier key (or to itself for the very first one)
+				e = &events.StakeMoveEvent{Address: addr, Amount: amount, Coin: coin, CandidatePubKey: key, ToCandidatePubKey: sim.ValKey((k % max(toKey, 1)) / 2)}
 			}
 			if usesKey && k < toKey {
 				k++
